@@ -383,6 +383,13 @@ class QGen:
         if k == "method":
             txt, cls = self.pick(objs)
             ms = [m for m in self.s.classes[cls].methods if (m.kind == "num" and m.ctype != "bool" and not m.enum and not m.tree_type) or (m.kind == "echo" and self.f.echo and m.echo in ("id", "scaled", "enum10") and m.args[0] != "bool")]
+            tt = [m for m in self.s.classes[cls].methods if m.kind == "num" and m.tree_type and not m.enum and m.ctype in ("int", "float", "double")]
+            if tt and self.chance(1, 6):
+                # a method with a declared tree type, inside arithmetic: the tree type belongs to the method's own leaf, not to what is computed from it
+                m = self.pick(tt)
+                self.labels.add("tree_type-operand")
+                form = self.pick(["({x} * 1)", "(1 * {x})", "({x} + 0)", "(-{x})", "({x} - 0)"])
+                return (form.format(x=f"{txt}.{m.name}()"), m.ctype)
             if ms:
                 m = self.pick(ms)
                 if m.kind == "num":
@@ -595,14 +602,40 @@ class QGen:
         while v == acc:
             v = v + "v"
         seed = self.pick(["0", "1", "0.0", "2.5", "10"])
+        seed_kind = "int" if "." not in seed else "double"
+        tail = ""
+        if getattr(f, "computed_seed", True) and self.chance(1, 3):
+            # a seed that has to be COMPUTED first: a count, a number from the enclosing scope, a conditional
+            int_vars = [n for n, t in scope if isinstance(t, TNum) and t.kind == "int"]
+            how = self.weighted([(3, "count"), (2, "leaf"), (1, "ifexp")] + ([(4, "intvar")] if int_vars else []))
+            if how == "intvar":
+                seed = self.pick(int_vars)
+                seed_kind = "int"
+                # ... and the same number used again next to the aggregate (it must keep its own type)
+                tail = self.pick([f" + {seed} / 2", f" + {seed} / 2", ""])
+            elif how == "count":
+                self.noflat += 1
+                os_ = self.objseq(scope, 0)
+                self.noflat -= 1
+                if os_ is not None:
+                    seed, seed_kind = f"{os_[0]}.Count()", "int"
+            elif how == "leaf":
+                seed, seed_kind = self.num_leaf(scope)
+                if seed_kind == "bool":
+                    seed, seed_kind = "1", "int"
+            else:
+                seed, seed_kind = f"(1 if {self.boolean(scope, 0)} else 2.5)", "double"
+            self.labels.add("Aggregate-computed-seed")
         body = self.pick([f"{acc} + {v}", f"{acc} + {v} * 2", f"{acc} + 1", f"{acc} * 2 + {v}", f"({acc} if {acc} > {v} else {v})", f"{acc} - {v}"])
         self.labels.add("Aggregate")
         import re as _re
 
         uses_v = _re.search(rf"\b{_re.escape(v)}\b", body) is not None
-        kind = wider("int" if "." not in seed else "double", r[1]) if uses_v else ("int" if "." not in seed else "double")
+        kind = wider(seed_kind, r[1]) if uses_v else seed_kind
         if "if" in body:
             kind = "double"
+        if tail:
+            return (f"({r[0]}.Aggregate({seed}, lambda {acc}, {v}: {body}){tail})", "double")
         return (f"{r[0]}.Aggregate({seed}, lambda {acc}, {v}: {body})", kind)
 
     def mathfn(self, scope, fuel) -> Tuple[str, str]:
